@@ -740,7 +740,7 @@ impl Prop for C14 {
         let grid = (WIDTHS.len() * INDENTS.len()) as u64;
         let (m, s) = match tier {
             Tier::Quick => (40_000, 40_000),
-            Tier::Thorough => (500_000, 500_000),
+            Tier::Thorough => (1_500_000, 1_500_000),
         };
         vec![
             Space { name: "corpus", size: files * grid, exhaustive: true, chunk: 800, case_timeout_s: 20.0, what: "every shipped .mmm source that parses without errors x 8 line widths x 4 indent sizes" },
